@@ -68,9 +68,15 @@ def gen_response(rng, payload_max=200):
             "partial": gen_frame(rng, payload_max=payload_max) if rng.random() < 0.5 else None}
 
 
+def _e(x):
+    """keys/values/messages are str in generated responses; bytes are allowed so that ill-formed
+    ones (invalid UTF-8) can be written down for the wf cross-check"""
+    return x if isinstance(x, bytes) else x.encode()
+
+
 def enc_frame(fr, boundaries=None, base=0):
     out = bytearray()
-    lines = [(k.encode() + b": " + v.encode() + b"\n") for k, v in fr["fields"]]
+    lines = [(_e(k) + b": " + _e(v) + b"\n") for k, v in fr["fields"]]
     if fr["bin"] is not None:
         lines.insert(fr["binpos"], b"binary: " + str(len(fr["bin"])).encode() + b"\n" + fr["bin"] + b"\n")
     for l in lines:
@@ -80,14 +86,14 @@ def enc_frame(fr, boundaries=None, base=0):
 
 def enc_error(e):
     code, idx, cmd, msg = e
-    return f"ACK [{code}@{idx}] {{{cmd or ''}}} ".encode() + msg.encode() + b"\n"
+    return f"ACK [{code}@{idx}] {{".encode() + _e(cmd or "") + b"} " + _e(msg) + b"\n"
 
 
 def enc_response(r):
     out = bytearray()
     if r["form"] == "single":
         if r["error"] is None:
-            out += enc_frame(r["frames"][0]) + b"OK\n"
+            out += (enc_frame(r["frames"][0]) if r["frames"] else b"") + b"OK\n"
         else:
             if r["partial"]:
                 out += enc_frame(r["partial"])
@@ -102,6 +108,111 @@ def enc_response(r):
                 out += enc_frame(r["partial"])
             out += enc_error(r["error"])
     return bytes(out)
+
+
+# ---------------------------------------------------------------- spec tie (coq/Grammar.v, kind `enc`)
+
+import re as _re
+
+_KEY = _re.compile(rb"[A-Za-z_-]+")
+_CMD = _re.compile(rb"[A-Za-z_]+")
+_NUM = _re.compile(rb"[0-9]+")
+
+
+def wf_text(v):
+    v = _e(v)
+    try:
+        v.decode("utf-8")
+    except UnicodeDecodeError:
+        return False
+    return b"\n" not in v
+
+
+def wf_field(k, v):
+    k, v = _e(k), _e(v)
+    header = k == b"binary" and _NUM.fullmatch(v) is not None and int(v) < 2 ** 64
+    return _KEY.fullmatch(k) is not None and wf_text(v) and not header
+
+
+def wf_frame(fr):
+    return all(wf_field(k, v) for k, v in fr["fields"]) and (fr["bin"] is None or len(fr["bin"]) < 2 ** 64)
+
+
+def wf_error(e):
+    code, idx, cmd, msg = e
+    return 0 <= code < 2 ** 64 and 0 <= idx < 2 ** 64 and (cmd is None or _CMD.fullmatch(_e(cmd)) is not None) and wf_text(msg)
+
+
+def wf_response(r):
+    """Python mirror of Grammar.wf_resp (written from the protocol description, not from the Coq text)"""
+    n, err = len(r["frames"]), r["error"]
+    if r["form"] == "single":
+        shape = n == 1 if err is None else n == 0
+    else:
+        shape = n >= 1 if err is None else True
+    end = err is None or (wf_error(err) and (r["partial"] is None or wf_frame(r["partial"])))
+    return shape and all(wf_frame(f) for f in r["frames"]) and end
+
+
+def spec_frame(fr):
+    fields = ",".join(f"{hexs(k)}:{hexs(v)}" for k, v in fr["fields"]) or "~"
+    b = "~" if fr["bin"] is None else hexs(fr["bin"])
+    return f"{fields};{b};{fr['binpos'] or 0}"
+
+
+def spec_case(r):
+    """case line of the model driver kind `enc` (coq/DriverGrammar.v)"""
+    if r["error"] is None:
+        e = "~"
+    else:
+        code, idx, cmd, msg = r["error"]
+        e = f"{code},{idx},{'~' if cmd is None else hexs(cmd)},{hexs(msg)}"
+    p = "~" if r["partial"] is None else spec_frame(r["partial"])
+    return " ".join(["enc", "l" if r["form"] == "list" else "s", e, p] + [spec_frame(f) for f in r["frames"]])
+
+
+def spec_expect(r):
+    return f"wf={1 if wf_response(r) else 0} {hexs(enc_response(r))}"
+
+
+def ill_formed(rng, r):
+    """one mutation of a generated response that touches exactly one clause of wf_resp (some of the
+    mutations stay well-formed on purpose: the boundary of the `binary` exclusion and of u64)"""
+    import copy
+    r = copy.deepcopy(r)
+    frames = [f for f in r["frames"] + ([r["partial"]] if r["partial"] and r["error"] else []) if f["fields"]]
+    op = rng.choice(["key", "binkey", "value", "err", "shape"] if frames else ["err", "shape"])
+    if op in ("key", "binkey", "value"):
+        fr = rng.choice(frames)
+        i = rng.randrange(len(fr["fields"]))
+        k, v = fr["fields"][i]
+        if op == "key":
+            k = rng.choice(["", "a1", "a b", "é", "a:", "Binary", "bin-ary", "_", "-"])
+        elif op == "binkey":
+            k, v = "binary", rng.choice(["3", "0", "007", "18446744073709551615", "18446744073709551616", "+3", "", "3 ", " 3", "٣", "3x"])
+        else:
+            v = rng.choice([b"a\nb", b"\n", b"\xff", b"\xc0\x80", b"\xed\xa0\x80", b"\xf4\x90\x80\x80", b"\xe2\x82", b"\xf0\x9f\x98\x80",
+                            b"ok \xe2\x82\xac", b"\x80"])
+        fr["fields"][i] = (k, v)
+    elif op == "err":
+        code, idx, cmd, msg = r["error"] or gen_error(rng)
+        what = rng.choice(["code", "idx", "cmd", "msg"])
+        if what == "code":
+            code = rng.choice([2 ** 64, 2 ** 64 - 1, 10 ** 30])
+        elif what == "idx":
+            idx = rng.choice([2 ** 64, 2 ** 64 - 1, 10 ** 30])
+        elif what == "cmd":
+            cmd = rng.choice(["pl4y", "", "a-b", "a b", "é", "_", "Z"])
+        else:
+            msg = rng.choice([b"a\nb", b"\xff", b"\xed\xa0\x80", b"", b"{x} [1@1]"])
+        if r["error"] is None:
+            r["frames"] = [] if r["form"] == "single" else r["frames"]
+        r["error"] = (code, idx, cmd, msg)
+    else:
+        extra = {"fields": [], "bin": None, "binpos": None}
+        what = rng.choice(["more", "none"])
+        r["frames"] = (r["frames"] + [extra]) if what == "more" else []
+    return r
 
 
 def show_frame(fr):
